@@ -38,7 +38,16 @@ impl InferenceRule for MappingAccessRule {
                 return Ok(());
             };
 
+            // The projection is a word offset into the mapping's value. One so large that its
+            // bit offset (or the end of the word at that offset) cannot be represented does not
+            // describe a field of any value, so no equation is emitted for it.
             let p = projection.unwrap_or(0);
+            let Some(bit_offset) = p
+                .checked_mul(WORD_SIZE_BITS)
+                .filter(|offset| offset.checked_add(WORD_SIZE_BITS).is_some())
+            else {
+                return Ok(());
+            };
             let key_tv = state.var_unchecked(key);
             let original_val_ty = state.var_unchecked(value);
             let val_ty = unsafe { state.allocate_ty_var() };
@@ -47,7 +56,7 @@ impl InferenceRule for MappingAccessRule {
                 val_ty,
                 TE::packed_of(vec![Span::new(
                     original_val_ty,
-                    p * WORD_SIZE_BITS,
+                    bit_offset,
                     WORD_SIZE_BITS,
                 )]),
             );
